@@ -51,7 +51,7 @@ class KnownFindings:
     def match(self, v):
         """Return the open entry that lists this violation, else None."""
         for e in self.open:
-            if e["property"] != v["property"] or e["rule"] != v["rule"]:
+            if e["property"] != v["property"] or (e["rule"] != v["rule"] and e["rule"] != "*"):
                 continue
             ok = True
             for k, want in (e.get("match") or {}).items():
@@ -322,6 +322,7 @@ def check_main(check_id, tier, argv=None):
             if len(errors) < 5:
                 errors.append({"seed": job["program"].get("seed"), "error": "child exceeded wall budget"})
             return True
+        agg["evals"] = agg.get("evals", 0) + res.get("evals", 1)
         agg["steps"] += res.get("steps", 0)
         agg["sim_seconds"] += res.get("sim_seconds", 0.0)
         merge_counts(agg["faults"], res.get("faults"))
@@ -424,13 +425,18 @@ def check_main(check_id, tier, argv=None):
 
     wall = _real_time() - t_start
     distinct = len(signatures)
+    evaluations = agg["runs"]
+    if cfg.get("count_mode") == "states":
+        evaluations = agg.get("evals", 0)
+        distinct = len(state_hashes)
     ev = {
         "property_id": check_id,
         "tier": tier,
         "seed": seed,
         "level": cfg["level"],
         "coverage": {
-            "evaluations": agg["runs"],
+            "evaluations": evaluations,
+            "simulated_runs": agg["runs"],
             "distinct_nontrivial": distinct,
             "rule": cfg["rule"],
             "samples": samples,
